@@ -18,7 +18,11 @@ RULE = ('Hypothesis-generated SimNet programs: one to two cancelled interactions
         'canceller\'s wire; no callback / result on the canceller after cancel() returned; once the CANCEL was delivered '
         'and the run is quiescent the peer producer was cancelled (publisher saw cancel(), handler future cancelled, '
         'on_cancel fired and the generator\'s finally ran) and yielded nothing after processing it; bystanders satisfy '
-        'the C01 delivery oracle. Non-trivial = cancel before the first element was delivered, or with an element in '
+        'the C01 delivery oracle. Plus cancellation through the Rx (v3) and ReactiveX (v4) requester adapters: the '
+        'result observable of a stream / channel is disposed by the application immediately after subscribe, k ticks '
+        'later, or from the observer after j elements, against core and adapter handlers; once the request has left, '
+        'exactly one CANCEL follows unless a terminal frame won the race, nothing is delivered after the dispose, and '
+        'a back-pressure-aware source on the peer is stopped. Non-trivial = cancel before the first element was delivered, or with an element in '
         'flight, or in the completion tick; distinct = program hash.')
 ASSUMPTIONS = ['cancels are issued only while the canceller has not observed a terminal signal',
                'for plain Rx observables (buffered by the adapter) only the wire/subscriber side is observable']
@@ -159,15 +163,76 @@ def shard(tier, seed, n):
     return stats
 
 
+# ---- cancellation through the Rx / ReactiveX requester adapters (dispose of the result observable)
+
+RX_VARIANTS = ('rx3', 'rx4', 'rx3/core', 'rx4/core')
+
+
+def rx_scenarios():
+    from harness.checks import c20
+
+    def force(sc_and_choice):
+        sc, ticks, after = sc_and_choice
+        sc = dict(sc)
+        if sc['model'] not in ('st', 'ch'):
+            sc['model'] = 'st'
+        if sc['model'] == 'ch':
+            sc.setdefault('m', 2)
+            sc.setdefault('rbp', False)
+            sc.setdefault('rerr_at', None)
+            sc.setdefault('resp_limit', MAXN_)
+        sc['err_at'] = None
+        if sc.get('dispose_after') is None and sc.get('dispose_ticks') is None:
+            if after is not None and 1 <= after < sc['n'] and not sc.get('flag_end'):
+                sc['dispose_after'] = after
+            else:
+                sc['dispose_ticks'] = ticks
+        return sc
+
+    return st.tuples(c20.scenarios(), st.sampled_from([0, 0, 1, 2, 3]), st.one_of(st.none(), st.integers(1, 6))).map(force)
+
+
+MAXN_ = 0x7FFFFFFF
+
+
+def rx_prop(sc):
+    from harness.checks import c20
+    vs = []
+    for variant in RX_VARIANTS:
+        for v in c20.judge_variant(sc, variant):
+            if 'dispose' in v['sig']:
+                v = dict(v, sig=v['sig'].replace('C20:', 'C09:rx:', 1))
+                vs.append(v)
+    info['nt'] = sc.get('dispose_ticks') in (0, 1) or (sc.get('dispose_after') or 99) < sc['n']
+    info['classes'] = ['rx_dispose=%s' % ('immediately' if sc.get('dispose_ticks') == 0 else
+                                          'after_ticks' if sc.get('dispose_ticks') is not None else 'after_elements'),
+                       'rx_model=' + sc['model']]
+    return vs
+
+
+def rx_shard(tier, seed, n):
+    common.use_repo()
+    stats = common.Stats()
+    known = common.Known(PID)
+    common.hyp_search(stats, known, rx_scenarios(), rx_prop, n, seed, classify=classify, shrink=True)
+    return stats
+
+
 def run(tier, seed):
     t0 = time.time()
     total = 3200 if tier == 'quick' else 60000
     nsh = common.NPROC
-    jobs = [dict(tier=tier, seed=0, n=None)] + [dict(tier=tier, seed=s, n=total // nsh) for s in common.shard_seeds(seed, nsh)]
-    stats = common.run_shards(__name__, 'shard', jobs)
+    jobs = [('shard', dict(tier=tier, seed=0, n=None))] + [('shard', dict(tier=tier, seed=s, n=total // nsh))
+                                                             for s in common.shard_seeds(seed, nsh)]
+    nrx = 480 if tier == 'quick' else 12000
+    jobs += [('rx_shard', dict(tier=tier, seed=s + 7777, n=nrx // 8)) for s in common.shard_seeds(seed, 8)]
+    stats = common.run_shards_multi(__name__, jobs)
     return common.finish(PID, tier, seed, LEVEL, RULE, stats, t0, ASSUMPTIONS)
 
 
 def replay(path):
     common.use_repo()
-    return common.report_replay(PID, path, prop(common.load_replay(path)))
+    case = common.load_replay(path)
+    if 'model' in case and 'ops' not in case:
+        return common.report_replay(PID, path, rx_prop(case))
+    return common.report_replay(PID, path, prop(case))
